@@ -53,6 +53,12 @@ func c06(c *Ctx) {
 	for i := 0; i < n; i++ {
 		cfg := GramCfg{MaxNT: 5, MaxNN: 6, MaxRules: 4, MaxRHS: 4, MultiInput: true, PEmpty: 0.15, Prec: c.Rng.Intn(4) == 0}
 		g := RandGram(c.Rng, cfg)
+		if cfg.Prec && c.Rng.Intn(2) == 0 {
+			// ambiguous expression grammars with %left/%right/%nonassoc: states after `E op1 E` and
+			// `E op2 E` whose rows differ only in shift / nonassoc-error entries
+			g = exprGram(c.Rng, cfg)
+			c.Count("expression grammar with precedence")
+		}
 		// duplicate-ish rules make mergeable states likely: copy a nonterminal's rules to another
 		if g.NN >= 2 && c.Rng.Intn(2) == 0 {
 			src, dst := g.NT+c.Rng.Intn(g.NN), g.NT+c.Rng.Intn(g.NN)
